@@ -1,6 +1,7 @@
 import PqlModel.Props.C06
 import PqlModel.Props.C06Subst
 import PqlModel.Props.C14Order
+import PqlModel.Props.C06Operand
 #print axioms Pql.C06.C06_shadow
 #print axioms Pql.C06.C06_other_binding_irrelevant
 #print axioms Pql.C06.C06_after_ignored
@@ -19,3 +20,19 @@ import PqlModel.Props.C14Order
 #print axioms Pql.C06.C06_join_counterexample
 #print axioms Pql.C06.C06_join_counterexample_not_related
 #print axioms Pql.C14.C14_unused_param_irrelevant
+#print axioms Pql.C06.C06_compileStmts_scope
+#print axioms Pql.C06.C06_compileStmts_scopeLets
+#print axioms Pql.C06.C06_let_value_is_operand
+#print axioms Pql.C06.C06_let_value_is_operand_pUnary
+#print axioms Pql.C06.C06_lexRender_scoped
+#print axioms Pql.C06.C06_lexRender_scoped_before
+#print axioms Pql.C06.C06_parse_roundtrip_scoped
+#print axioms Pql.C06.C06_parse_roundtrip_scoped_partial
+#print axioms Pql.C06.C06_parse_roundtrip_scoped_anyfuel_partial
+#print axioms Pql.C06.C06_parse_roundtrip_scoped_names
+#print axioms Pql.C06.C06_operand_is_unit_scoped
+#print axioms Pql.C06.C06_operand_is_unit_scoped_partial
+#print axioms Pql.C06.C06_tight_operand_is_atom_scoped_partial
+#print axioms Pql.C06.C06_join_name_counterexample
+#print axioms Pql.C06.C06_param_regrouped
+#print axioms Pql.C06.C06_param_comment
